@@ -578,3 +578,8 @@ H("C17", "integrity", "c17_large_inputs", timeout=1800, oracle_features=["cap64"
   inputs="total size <= 200 000 bytes, four cut positions, salt, key: any (buffer contents irrelevant: zero)",
   asserts="each function hands HMAC consecutive sub-slices that cover the whole input exactly once, in order (so chunked processing of large inputs loses or repeats nothing)",
   bounds="total size <= 200 000; unwind 42 (at most 41 chunks per file)", assumes=["HMAC model in span mode: message bytes are not copied, only their provenance is recorded"])
+
+for _pre, _mod, _p, _n in [("c07", "vanilla_header", 23, 100), ("c08", "tbc_header", 11, 60)]:
+    H(_pre.upper(), _mod, "%s_call_mid" % _pre, timeout=1800,
+      encodes=["%s::encrypt::encrypt" % _mod, "%s::decrypt::decrypt" % _mod], inputs="key, previous, data: any; index = %d; n = %d (both concrete)" % (_p, _n),
+      asserts="a %d-byte call from key position %d equals %d spec steps on both halves" % (_n, _p, _n), bounds="n = %d, starting position %d (several key laps, lap length does not divide the key length)" % (_n, _p), assumes=[])
